@@ -83,7 +83,7 @@ CHECKS = {
         note=BASE_TB + "Model/Mw.v hand-written. No axioms; PrimFloat (binary64) in the float-table checker only. Thresholds >= 0 (a tuned threshold below zero is handled by the code since fix D25a and is exercised by C04 / C14).",
         ref="DESIGN.md section 4 / C08"),
     "C09": dict(
-        technique="Coq proof (greedy-loop invariants, candidate-set characterisation) + Coq proof that the specification holds for ANY strict weak order on the scores, in particular binary64 without NaN (order embedding into the Z model; PrimFloat.ltb proved a strict weak order) + model-vs-code correspondence with direct spec checkers on integer tables and bit-exact on binary64 tables",
+        technique="Coq proof (greedy-loop invariants, candidate-set characterisation) + Coq proof that the specification holds for ANY strict weak order on the scores, in particular binary64 without NaN (order embedding into the Z model; PrimFloat.ltb proved a strict weak order) + model-vs-code correspondence with direct spec checkers on integer tables and bit-exact on binary64 tables; via Flocq, soundness / completeness / well-formedness up to the proved rounding error of the L2 local anomaly score for the binary64 run from float data (one column), premise evaluated on every from-data case",
         text="Theorems in coq/Properties/C09.v: inner candidates = exactly the intervals strictly inside with length >= m and >= m surrounding samples; per-interval score = max "
              "over them; anomalies sorted, disjoint, length >= m, strictly inside the data; picks supported / complete / threshold-monotone; totality; m=1 length-2 intervals "
              "have no candidate (pinned crash). Tie: exact equality of predict and the scores table (incl. argmax columns) with the real CircularBinarySegmentation on integer "
